@@ -322,6 +322,26 @@ func (p *parser) parseIn() (Expr, error) {
 		}
 		return in, nil
 	}
+	if t.isKw("BETWEEN") {
+		// a BETWEEN x AND y  ==  a >= x AND a <= y (same three-valued result; the operand is evaluated twice,
+		// which is unobservable for the side-effect-free expressions of the subset)
+		p.next()
+		if q := p.peek(); q.isKw("SYMMETRIC") || q.isKw("ASYMMETRIC") {
+			return nil, p.unsupported(q, "BETWEEN %s is not modelled", q.up)
+		}
+		lo, err := p.parseAdd()
+		if err != nil {
+			return nil, err
+		}
+		if !p.acceptKw("AND") {
+			return nil, p.unexpected("AND after the lower bound of BETWEEN")
+		}
+		hi, err := p.parseAdd()
+		if err != nil {
+			return nil, err
+		}
+		return &BinOp{Op: "AND", L: &BinOp{Op: ">=", L: l, R: lo}, R: &BinOp{Op: "<=", L: l, R: hi}}, nil
+	}
 	if t.kind == tIdent && keywordOperators[t.up] && t.up != "IS" && t.up != "AND" && t.up != "OR" && t.up != "NOT" &&
 		t.up != "ISNULL" && t.up != "NOTNULL" {
 		return nil, p.unsupported(t, "%s is not modelled", t.up)
